@@ -144,6 +144,22 @@ def exchange (udp : Bool) (qid : Nat) (q : Option Question) (cands : List Cand) 
     | none => (XRes.ok i, used)
     | some qq => if questionMatches qq c.qs then (XRes.ok i, used) else (XRes.errQuestion, used)
 
+/-- `dohExchange` + the guard of `Client.Exchange` for `Proto == "doh"`: one
+HTTP response body; RFC 8484 lets the server normalise the ID to 0, so the
+reply's ID must be the query's or 0; the question guard follows unless the
+caller opted out (`SkipQuestionCheck`). -/
+def dohExchange (qid : Nat) (q : Option Question) (skipQuestion : Bool) (c : Cand) : XRes :=
+  if c.bad then XRes.errRead
+  else if c.id ≠ qid ∧ c.id ≠ 0 then XRes.errId
+  else match q with
+    | none => XRes.ok 0
+    | some qq => if skipQuestion || questionMatches qq c.qs then XRes.ok 0 else XRes.errQuestion
+
+/-- `Resolver.answer` on a DNAME answer: the filtered upstream section, then the
+answer section of the target's own resolution (`checkDname` → `internalExchange`). -/
+def composeDnameAnswer {α : Type} (inZone : α → Bool) (upstream target : List α) : List α :=
+  upstream.filter inZone ++ target
+
 /-! ### `usableAddr` -/
 
 abbrev IP := List UInt8
